@@ -54,9 +54,23 @@ type TLSConfig struct {
 	InsecureSkipVerify bool
 
 	// tlsConfig is the internal Go TLS configuration
-	tlsConfig   *tls.Config
-	mu          sync.RWMutex
-	currentCert atomic.Pointer[tls.Certificate] // atomically updated for concurrent reads
+	tlsConfig *tls.Config
+	mu        sync.RWMutex
+
+	// certHolder holds the certificate presented to clients. It is shared by a
+	// TLSConfig and all of its clones, so that ReloadCertificates on any copy
+	// (for example the one returned by GetExportOptions) reaches the listener
+	// that was built from another copy.
+	certHolder *atomic.Pointer[tls.Certificate]
+}
+
+// holder returns the shared certificate holder, creating it on first use.
+// The caller must hold tc.mu for writing.
+func (tc *TLSConfig) holder() *atomic.Pointer[tls.Certificate] {
+	if tc.certHolder == nil {
+		tc.certHolder = new(atomic.Pointer[tls.Certificate])
+	}
+	return tc.certHolder
 }
 
 // DefaultTLSConfig returns a TLS configuration with secure defaults
@@ -154,12 +168,13 @@ func (tc *TLSConfig) BuildConfig() (*tls.Config, error) {
 	}
 
 	// Store cert atomically for concurrent-safe access
-	tc.currentCert.Store(&cert)
+	holder := tc.holder()
+	holder.Store(&cert)
 
 	// Create base TLS config using GetCertificate callback for hot-reload support
 	config := &tls.Config{
 		GetCertificate: func(*tls.ClientHelloInfo) (*tls.Certificate, error) {
-			return tc.currentCert.Load(), nil
+			return holder.Load(), nil
 		},
 		MinVersion:               tc.MinVersion,
 		MaxVersion:               tc.MaxVersion,
@@ -210,8 +225,8 @@ func (tc *TLSConfig) GetConfig() (*tls.Config, error) {
 // ReloadCertificates reloads the server certificates without changing other settings
 // This is useful for certificate rotation without restarting the server
 func (tc *TLSConfig) ReloadCertificates() error {
-	tc.mu.RLock()
-	defer tc.mu.RUnlock()
+	tc.mu.Lock()
+	defer tc.mu.Unlock()
 
 	if !tc.Enabled {
 		return fmt.Errorf("TLS is not enabled")
@@ -225,7 +240,7 @@ func (tc *TLSConfig) ReloadCertificates() error {
 
 	// Atomically update the certificate - the GetCertificate callback
 	// will pick up the new cert on the next TLS handshake
-	tc.currentCert.Store(&cert)
+	tc.holder().Store(&cert)
 
 	return nil
 }
@@ -303,8 +318,8 @@ func (tc *TLSConfig) Clone() *TLSConfig {
 	if tc == nil {
 		return nil
 	}
-	tc.mu.RLock()
-	defer tc.mu.RUnlock()
+	tc.mu.Lock()
+	defer tc.mu.Unlock()
 
 	clone := &TLSConfig{
 		Enabled:                  tc.Enabled,
@@ -316,6 +331,7 @@ func (tc *TLSConfig) Clone() *TLSConfig {
 		MaxVersion:               tc.MaxVersion,
 		PreferServerCipherSuites: tc.PreferServerCipherSuites,
 		InsecureSkipVerify:       tc.InsecureSkipVerify,
+		certHolder:               tc.holder(), // shared, see TLSConfig.certHolder
 	}
 
 	// Copy cipher suites slice
